@@ -73,7 +73,7 @@ type c13gen struct {
 	imports map[int]bool
 	usedPar bool
 	parName string // name of the injector parameter the expression mentions ("par", or "X": shadows the package-level X)
-	dot     bool // the expression is written in the injector's package, which dot-imports the library
+	dot     bool   // the expression is written in the injector's package, which dot-imports the library
 }
 
 func (g *c13gen) pick(xs []string, l string) string { return rapid.SampledFrom(xs).Draw(g.t, l) }
